@@ -24,7 +24,7 @@ import Gts.Model.GenBank
 namespace Gts.Bridge
 open Gts.Pars Gts.GenBank Gts.Gen.GoStrings
 open Gts.Gen.InsdcWrite (Feature INSDCFormatter insdcFormatterString)
-open Gts.Gen.GbFields (GenBankFields Pair Organism ExtraField Contig unpack)
+open Gts.Gen.GbFields (GenBankFields Pair Organism ExtraField Contig gtsUnpack)
 open Gts.Gen.GenBankWrite (genBankString genBankStringLoop genBankStringLoop2 genBankStringLoop3 genBankStringLoop4
   topologyString contigString extraFieldString genbankFieldFormatter genBankExtraField)
 
@@ -108,7 +108,7 @@ theorem topologyString_eq (t : Int) : topologyString t = topologyText t := by
 /-- contig.go `Contig.String` is `contigText` -/
 theorem contigString_eq (f : Fields) :
     contigString itoaB { Accession := f.contigAcc, Region := (f.contigHead, f.contigTail) } = contigText f := by
-  unfold contigString contigText unpack
+  unfold contigString contigText gtsUnpack
   cases h : f.contigAcc with
   | nil => simp
   | cons c cs => simp [wsLit_eq_bs, List.append_assoc, bs]
@@ -277,7 +277,7 @@ def regionText (reg : Option (Int × Int)) : Bytes :=
 /-- the REGION block: the guard `ok && seg[0] < seg[1]` keeps `gts.Range` from panicking -/
 theorem regionBlock_eq (reg : Option (Int × Int)) (P : Bytes) :
     (if reg.isSome = true ∧ (reg.getD (0, 0)).fst < (reg.getD (0, 0)).snd then
-        (some (unpack (reg.getD (0, 0)))).bind fun x =>
+        (some (gtsUnpack (reg.getD (0, 0)))).bind fun x =>
           (wsRange x.fst x.snd).bind fun x3_ => some (P ++ (wsLit " REGION: " ++ x3_.printB))
       else some P) = some (P ++ regionText reg) := by
   cases reg with
@@ -288,7 +288,7 @@ theorem regionBlock_eq (reg : Option (Int × Int)) (P : Bytes) :
     · have hnot : ¬ t ≤ h := by omega
       have hr : wsRange h t = some (Loc.ranged h t false false) := by
         unfold wsRange; rw [if_neg hnot]
-      simp [regionText, hlt, hnot, unpack, hr, printB_range, wsLit_eq_bs, List.append_assoc]
+      simp [regionText, hlt, hnot, gtsUnpack, hr, printB_range, wsLit_eq_bs, List.append_assoc]
     · have hle : t ≤ h := by omega
       simp [regionText, hlt, hle]
 
